@@ -61,6 +61,7 @@ type schedThr struct {
 	last     string // sync point the thread is parked at ("end" = idle)
 	gid      uint64
 	adopted  bool // goroutine created inside ugo (Eval.run): it ends without an "end" park
+	arrived  string // probing schedules: sync point reached while nobody was waiting for it
 }
 
 type schedEngine struct {
@@ -229,6 +230,11 @@ func (e *schedEngine) release(t *schedThr) {
 func (e *schedEngine) step(t *schedThr, predictBlocked bool) string {
 	if t.fin {
 		return "fin"
+	}
+	if t.arrived != "" {
+		n := t.arrived
+		t.arrived = ""
+		return n
 	}
 	if !t.released {
 		if predictBlocked && !e.probe {
@@ -497,6 +503,22 @@ func (sc *schedScenario) execute(dirs []string, watchdog time.Duration, calibrat
 			}
 			if t == R && name == "end" && sc.family == "eval" {
 				e.runEnded(nil, false, input)
+			}
+			if e.probe && name != "!blocked" && other.released && !other.fin && other.last != "wait" && !holdsLock(t) {
+				// probing schedule: `other` was released against pool.mu, which is free now: it
+				// proceeds to its next sync point (the model advances it at the same moment)
+				select {
+				case h := <-other.ev:
+					other.released = false
+					if h == "fin" {
+						other.fin = true
+					} else {
+						other.last = h
+						e.afterPark(other, h)
+					}
+					other.arrived = h
+				case <-time.After(2 * time.Second):
+				}
 			}
 			names = append(names, name)
 			if t == E && name == "Eval.run.beforeSelect2" {
